@@ -4,6 +4,9 @@ import glob, json, os, re, shutil, subprocess, time
 # property -> (harness filters quick, extra filters thorough, per-harness timeout quick/thorough, jobs)
 PLAN = {
     "C07": {"filters": ["c07::"], "timeout": (150, 2700), "jobs": (12, 8)},
+    # thorough-tier extras: symbolic node identifiers for two lax operations (complements the lax tier of Engine S)
+    "C10": {"filters": ["lax_k::c10_"], "timeout": (0, 1200), "jobs": (2, 2), "thorough_only": True},
+    "C11": {"filters": ["lax_k::c11_"], "timeout": (0, 1200), "jobs": (2, 2), "thorough_only": True},
 }
 
 ASSUMPTIONS = [
@@ -32,6 +35,8 @@ def run(pid, tier, seed, root, build, log):
     if pid not in PLAN:
         return None
     plan = PLAN[pid]
+    if plan.get("thorough_only") and tier != "thorough":
+        return None
     t0 = time.time()
     timeout = plan["timeout"][0 if tier == "quick" else 1]
     jobs = plan["jobs"][0 if tier == "quick" else 1]
@@ -75,8 +80,8 @@ def run(pid, tier, seed, root, build, log):
         "wall_s": round(time.time() - t0, 1),
         "per_harness_timeout_s": timeout,
         "samples": [{"harness": n, "checks": res[n].get("checks"), "time_s": res[n].get("time")} for n in names[:6]],
-        "functions_encoded": ["VecArray: Array/OrdArray/NaturalArray impls (array/vec/vec_array.rs)", "array/vec/connected_components.rs: UnionFind, connected_components, to_dense", "array/traits.rs default methods: to_range, sort_by, sum, segmented_sum, segmented_arange"],
-        "bounds": "array lengths 0..3 (quick) / 0..4 (thorough), element types u8 and usize for the generic primitives, all five range forms, repeat/segmented counts from a fixed list, connected components n<=3 e<=2 (thorough n=4 e=3), sparse_bincount length <=1 (thorough <=3 under the per-harness cap; inconclusive harnesses are listed, never counted as verified); multiply-add constant and quot_rem divisor concrete per instance (c,d) in {(0,1),(3,2),(2,3)}",
+        "functions_encoded": (["VecArray: Array/OrdArray/NaturalArray impls (array/vec/vec_array.rs)", "array/vec/connected_components.rs: UnionFind, connected_components, to_dense", "array/traits.rs default methods: to_range, sort_by, sum, segmented_sum, segmented_arange"] if pid == "C07" else ["lax::OpenHypergraph::{delete_nodes,lax_compose,tensor,unify} on a 3-node state with symbolic node identifiers (one hyperedge 2->1, one pending pair, interfaces 1/1)"]),
+        "bounds": "3 nodes, 1 hyperedge 2->1, 1 pending pair, interfaces 1/1, all identifiers and labels kani::any()" if pid != "C07" else "array lengths 0..3 (quick) / 0..4 (thorough), element types u8 and usize for the generic primitives, all five range forms, repeat/segmented counts from a fixed list, connected components n<=3 e<=2 (thorough n=4 e=3), sparse_bincount length <=1 (thorough <=3 under the per-harness cap; inconclusive harnesses are listed, never counted as verified); multiply-add constant and quot_rem divisor concrete per instance (c,d) in {(0,1),(3,2),(2,3)}",
     }
     # a harness whose cover witness is not satisfied proves nothing
     vacuous = [n for n in verified if not res[n].get("cover_ok")]
